@@ -123,6 +123,7 @@ def with_swapped_twins(spec: "GraphSpec") -> "GraphSpec | None":
     return GraphSpec(nodes, edges, spec.tag + ":twins") if added else None
 NAMESETS = {
     "unique": lambda i: f"n{i}",
+    "dotted": lambda i: ["a.b", "a", "a.b.c", ".a", "0", "n 1", "a/b", "ü"][i % 8],   # unique, full of separators
     "colliding": lambda i: ["main", "m", "ma", "a", "main.a", "x.y", "in", "n"][i % 8],
 }
 
